@@ -83,6 +83,8 @@ class LoopContext:
     break_jumps: List[int] = field(default_factory=list)
     continue_jumps: List[int] = field(default_factory=list)
     label: Optional[str] = None
+    # Further labels of the same statement (a: b: while (...) ...)
+    more_labels: Tuple[str, ...] = ()
     is_loop: bool = True  # False for switch statements (break only, no continue)
     # Operands the statement keeps on the stack while its body runs (for-in/for-of
     # iterator, switch discriminant); popped when control leaves the statement
@@ -104,6 +106,7 @@ class Compiler:
         self.locals: List[str] = []
         self.loop_stack: List[LoopContext] = []
         self._pending_label: Optional[str] = None  # label of the loop being compiled
+        self._pending_more_labels: Tuple[str, ...] = ()
         self.functions: List[CompiledFunction] = []
         self._in_function: bool = False  # Track if we're compiling inside a function
         self._outer_locals: List[List[str]] = []  # Stack of outer scope locals
@@ -382,6 +385,12 @@ class Compiler:
         self._pending_label = None
         return label
 
+    def _take_more_labels(self) -> Tuple[str, ...]:
+        """The other labels of a loop statement that carries several."""
+        labels = self._pending_more_labels
+        self._pending_more_labels = ()
+        return labels
+
     def _add_constant(self, value: Any) -> int:
         """Add a constant and return its index."""
         if value in self.constants:
@@ -623,7 +632,7 @@ class Compiler:
                 self._patch_jump(jump_false)
 
         elif isinstance(node, WhileStatement):
-            loop_ctx = LoopContext(label=self._take_label())
+            loop_ctx = LoopContext(label=self._take_label(), more_labels=self._take_more_labels())
             self.loop_stack.append(loop_ctx)
 
             loop_start = len(self.bytecode)
@@ -646,7 +655,7 @@ class Compiler:
             self.loop_stack.pop()
 
         elif isinstance(node, DoWhileStatement):
-            loop_ctx = LoopContext(label=self._take_label())
+            loop_ctx = LoopContext(label=self._take_label(), more_labels=self._take_more_labels())
             self.loop_stack.append(loop_ctx)
 
             loop_start = len(self.bytecode)
@@ -667,7 +676,7 @@ class Compiler:
             self.loop_stack.pop()
 
         elif isinstance(node, ForStatement):
-            loop_ctx = LoopContext(label=self._take_label())
+            loop_ctx = LoopContext(label=self._take_label(), more_labels=self._take_more_labels())
             self.loop_stack.append(loop_ctx)
 
             # Init
@@ -709,7 +718,7 @@ class Compiler:
             self.loop_stack.pop()
 
         elif isinstance(node, ForInStatement):
-            loop_ctx = LoopContext(label=self._take_label(), stack_slots=1)
+            loop_ctx = LoopContext(label=self._take_label(), more_labels=self._take_more_labels(), stack_slots=1)
             self.loop_stack.append(loop_ctx)
 
             # Compile object expression
@@ -764,7 +773,7 @@ class Compiler:
             self.loop_stack.pop()
 
         elif isinstance(node, ForOfStatement):
-            loop_ctx = LoopContext(label=self._take_label(), stack_slots=1)
+            loop_ctx = LoopContext(label=self._take_label(), more_labels=self._take_more_labels(), stack_slots=1)
             self.loop_stack.append(loop_ctx)
 
             # Compile iterable expression
@@ -813,7 +822,10 @@ class Compiler:
                     continue
                 if target_label is not None:
                     # Labeled break - find the matching label
-                    if loop_ctx.label == target_label:
+                    if (
+                        loop_ctx.label == target_label
+                        or target_label in loop_ctx.more_labels
+                    ):
                         ctx = loop_ctx
                         break
                 else:
@@ -847,7 +859,11 @@ class Compiler:
                 # Only loops can be continued (not switch, labeled blocks or try)
                 if not loop_ctx.is_loop:
                     continue
-                if target_label is None or loop_ctx.label == target_label:
+                if (
+                    target_label is None
+                    or loop_ctx.label == target_label
+                    or target_label in loop_ctx.more_labels
+                ):
                     ctx = loop_ctx
                     break
 
@@ -1020,6 +1036,27 @@ class Compiler:
                 # both `break label` and `continue label` resolve to it
                 self._pending_label = node.label.name
                 self._compile_statement(node.body)
+                return
+
+            # Several labels on one loop (a: b: while ...) all name that loop
+            labels = [node.label.name]
+            inner = node.body
+            while isinstance(inner, LabeledStatement):
+                labels.append(inner.label.name)
+                inner = inner.body
+            if len(labels) > 1 and isinstance(
+                inner,
+                (
+                    WhileStatement,
+                    DoWhileStatement,
+                    ForStatement,
+                    ForInStatement,
+                    ForOfStatement,
+                ),
+            ):
+                self._pending_label = labels[0]
+                self._pending_more_labels = tuple(labels[1:])
+                self._compile_statement(inner)
                 return
 
             # Create a loop context for the label
